@@ -364,6 +364,8 @@ def _join_side(rng, nr, key_dts, from_depth, n_payload, label_pool_kind, distinc
         keyvals[0] = rows
         depth_level = rng.choice([0, 0, [0]])
     else:
+        if 'bool' in depth_keys[:2]:
+            return None   # Boolean labels: a Boolean label array is read as a mask (C04's subject)
         a = [V.normalize(depth_keys[0], v) for v in KEY_DOMAINS[depth_keys[0]]]
         b = [V.normalize(depth_keys[1], v) for v in KEY_DOMAINS[depth_keys[1]]]
         rng.shuffle(a)
@@ -443,7 +445,7 @@ _GENS = [(_gen_join, 0.30), (_gen_pivot, 0.28), (_gen_stack, 0.14), (_gen_setidx
 def generate(ctx):
     rng = ctx.rng
     gens, weights = [g for g, _ in _GENS], [w for _, w in _GENS]
-    for _ in range(ctx.n(36000, 640000)):
+    for _ in range(ctx.n(36000, 560000)):
         g = rng.choices(gens, weights)[0]
         case = g(rng)
         if case is not None:
@@ -453,7 +455,7 @@ def generate(ctx):
 # --------------------------------------------------------------------------------------
 # helpers for the judges
 
-_FOLD_AFTER = 3
+_FOLD_AFTER = 2
 
 
 def _violate(ctx, what, detail=None, klass=None):
@@ -1174,7 +1176,7 @@ def _check_pivot(case, ctx):
     idx_py = list(dict.fromkeys(tuple(spec.cells[r][p] for p in ifs) for r in range(nr)))
     idx_dts = [spec.dtypes[p] for p in ifs]
     klass = {'op': 'pivot', 'n_index_fields': len(ifs), 'n_columns_fields': len(cfs), 'n_data_fields': len(dfs),
-             'n_funcs': len(funcs), 'func_default': func is None, 'data_omitted': omitted, 'fill_kind': type(fill).__name__,
+             'n_funcs': len(funcs),
              'index_fields_object': len(ifs) > 1 and _resolves_to_object(idx_dts),
              'first_appearance_tree': R.is_tree([tuple(t) for t in idx_py]) if len(ifs) > 1 else True,
              'index_fields_have_datetime': any(spec.dtypes[p].startswith('M8') for p in ifs),
@@ -1243,7 +1245,7 @@ def _check_pivot(case, ctx):
         detail = {'cells': [{'kind': b[0], 'func': b[1], 'row': b[2], 'column': b[3], 'expected': b[4], 'got': b[5]} for b in sub[:4]],
                   'n_bad': len(sub), 'n_bad_all_kinds': len(bad)}
         _violate(ctx, whats.get(kind, 'pivot_cell_mismatch'), detail=detail,
-                      klass=dict(klass, funcs=sorted({b[1] for b in sub}), wrong_cell_group=kind))
+                      klass=dict(klass, wrong_cell_group=kind))
 
 
 # --------------------------------------------------------------------------------------
@@ -1337,9 +1339,8 @@ def _check_join(case, ctx):
     ur_in_l = any(R.py_equal(rs.rows[j], x) for j in range(nr) if j not in matched_r for x in ls.rows)
     klass = {'op': 'join', 'how': how, 'composite_index': composite, 'cardinality': card, 'path': path,
              'left_key': _key_source(case['ldepth'], case['lcols']), 'right_key': _key_source(case['rdepth'], case['rcols']),
-             'fill_kind': type(fill).__name__, 'empty_side': nl == 0 or nr == 0, 'has_pairs': bool(pairs),
+             'empty_side': nl == 0 or nr == 0, 'has_pairs': bool(pairs),
              'matched_pairs_share_labels': share, 'unmatched_left_label_in_right': ul_in_r, 'unmatched_right_label_in_left': ur_in_l,
-             'left_row_kind': ls.row_kind, 'right_row_kind': rs.row_kind,
              'hierarchical_index': ls.row_kind.startswith('hier') or rs.row_kind.startswith('hier'),
              'hierarchical_sides': int(ls.row_kind.startswith('hier')) + int(rs.row_kind.startswith('hier')),
              'hierarchy_has_datetime_level': any(isinstance(x, np.datetime64) for sp in (ls, rs) if sp.row_kind.startswith('hier')
